@@ -184,6 +184,12 @@ def points(tier: str) -> List[dict]:
         if i % 3 == 0:  # one third symmetric, two thirds asymmetric (a directed successor model: asymmetric costs are legal)
             c = [[c[min(a, b)][max(a, b)] for b in range(n)] for a in range(n)]
         P.append({"spec": {"model": "tsp", "costs": c, "op": "opt", "brute": True, "cfg": {"tsp_heuristics": bool(i % 2)}}, "optimum": "brute", "fix_heur": bool(i % 2)})
+    for i in range(4 if not th else 12):
+        # null costs between distinct vertices are legal (found the TSP lower-bound defect, DESIGN.md 8.2); the shipped
+        # cost heuristics require strictly positive costs, so these instances use the default heuristics
+        n = 3 + next(g) % 3
+        c = [[0 if a == b else next(g) % 6 for b in range(n)] for a in range(n)]
+        P.append({"spec": {"model": "tsp", "costs": c, "op": "opt", "brute": True, "cfg": {}}, "optimum": "brute", "fix_heur": True})
     for n in (3, 4, 5, 6):
         P.append({"spec": {"model": "circuit", "n": n, "brute": True}, "count": "brute"})
     P.append({"spec": {"model": "sudoku", "givens": SUDOKU_1}, "count": 1})
